@@ -321,3 +321,77 @@ Definition set_noadjust (c : cache) (r : list N) (h : N) (v : bytes) (m : N) (no
   | Err e => Err e
   | Crash w => Crash w
   end.
+
+(* ---- fine-grained executions under a readers-writer lock ----
+   Any number of threads; an idle thread may begin any operation at any time. An operation is NOT atomic here: `get`
+   computes the index, then (in a later step) reads the entry at that index; `set` runs the eviction loop, then
+   removes the existing entry, then pushes — each micro-step reads and writes the shared cache in place, and other
+   threads' micro-steps may come in between. The only synchronisation is the RwLock of static.rs, modelled by its
+   guarantee: a read guard is granted only while no write guard is held, a write guard only while no guard at all is
+   held (a thread state other than TIdle means the thread holds the corresponding guard). A completed operation
+   appends (operation, result) to the log. *)
+Inductive tstate :=
+| TIdle
+| TGetA (r : list N) (h now : N)                         (* read guard held; before `position` *)
+| TGetB (r : list N) (h now : N) (idx : option nat)      (* index computed; entry not read yet *)
+| TSetA (r : list N) (h : N) (v : bytes) (m now : N)     (* write guard held; before the eviction loop *)
+| TSetB (r : list N) (h : N) (v : bytes) (m now : N)     (* eviction done in place *)
+| TSetC (r : list N) (h : N) (v : bytes) (m now : N).    (* existing entry removed in place; before push_back *)
+
+Definition holds_write (t : tstate) : Prop :=
+  match t with TSetA _ _ _ _ _ | TSetB _ _ _ _ _ | TSetC _ _ _ _ _ => True | _ => False end.
+
+Definition upd (ts : nat -> tstate) (i : nat) (x : tstate) : nat -> tstate :=
+  fun j => if Nat.eqb j i then x else ts j.
+
+(* second half of get: `&self.data[index]` and the staleness test, on the cache as it is NOW *)
+Definition get_at (c : cache) (idx : option nat) (now : N) : outcome (option item) :=
+  match idx with
+  | Some i =>
+    match nth_error (c_data c) i with
+    | None => Crash 4
+    | Some it => if now <? i_time it then Crash 5
+                 else if c_tlimit c <? now - i_time it then Ok None else Ok (Some it)
+    end
+  | None => Ok None
+  end.
+
+Definition logent := (op * option (option item))%type.
+
+Inductive cstep : cache * (nat -> tstate) * list logent -> cache * (nat -> tstate) * list logent -> Prop :=
+| cs_begin_get : forall c ts log i r h now,
+    ts i = TIdle -> (forall j, ~ holds_write (ts j)) ->
+    cstep (c, ts, log) (c, upd ts i (TGetA r h now), log)
+| cs_get_a : forall c ts log i r h now,
+    ts i = TGetA r h now ->
+    cstep (c, ts, log) (c, upd ts i (TGetB r h now (position r h (c_data c))), log)
+| cs_get_b : forall c ts log i r h now idx x,
+    ts i = TGetB r h now idx -> get_at c idx now = Ok x ->
+    cstep (c, ts, log) (c, upd ts i TIdle, log ++ [(OGet r h now, Some x)])
+| cs_begin_set : forall c ts log i r h v m now,
+    (forall j, ts j = TIdle) ->
+    cstep (c, ts, log) (c, upd ts i (TSetA r h v m now), log)
+| cs_set_a : forall c ts log i r h v m now s1 d1,
+    ts i = TSetA r h v m now ->
+    evict (c_size c) (blen v) (c_limit c) (c_data c) = Ok (s1, d1) ->
+    cstep (c, ts, log) (mkCache (c_limit c) (c_tlimit c) s1 d1, upd ts i (TSetB r h v m now), log)
+| cs_set_b : forall c ts log i r h v m now s2 d2,
+    ts i = TSetB r h v m now ->
+    remove_existing (c_size c) r h (c_data c) = Ok (s2, d2) ->
+    cstep (c, ts, log) (mkCache (c_limit c) (c_tlimit c) s2 d2, upd ts i (TSetC r h v m now), log)
+| cs_set_c : forall c ts log i r h v m now,
+    ts i = TSetC r h v m now ->
+    cstep (c, ts, log)
+          (mkCache (c_limit c) (c_tlimit c) (c_size c + blen v) (c_data c ++ [mkItem r h m now v]),
+           upd ts i TIdle, log ++ [(OSet r h v m now, None)]).
+
+Inductive creach (lim tl : N) : cache * (nat -> tstate) * list logent -> Prop :=
+| cr_init : creach lim tl (empty lim tl, fun _ => TIdle, [])
+| cr_step : forall s s', creach lim tl s -> cstep s s' -> creach lim tl s'.
+
+(* running the logged operations one after the other from c gives exactly the logged results and ends in c' *)
+Fixpoint seq_exec (c : cache) (log : list logent) (c' : cache) : Prop :=
+  match log with
+  | [] => c' = c
+  | (o, out) :: rest => exists c1, step c o = Ok (c1, out) /\ seq_exec c1 rest c'
+  end.
